@@ -44,7 +44,13 @@ package builder
 //@   | && (forall k int :: 0 <= k && k < len(p.rstack) ==> p.rstack[k] != nil)
 //@   | && (forall k int :: 0 <= k && k < len(p.vstack) ==> p.vstack[k] != nil)
 //@   | && (forall k int :: 0 <= k && k < len(p.recoveryStack) ==> p.recoveryStack[k] != nil)
-//@   | && p.ExprCnt <= p.maxExprCnt && RulesOK(p) && DbgOK(p)
+//@   | && RulesOK(p) && DbgOK(p) && FramesOK(p) && RecOK(p)
+// every slot of the variable stack (stale ones up to the capacity included) is nil or an allocated map
+//@ pred FramesOK(p *parser) bool = forall k int :: {p.vstack[k]} 0 <= k && k < cap(p.vstack) ==> (p.vstack[k] == nil || alloc(p.vstack[k]))
+// recovery maps are allocated, are never variable-stack slots, and hold grammar nodes
+//@ pred RecOK(p *parser) bool = (forall j int :: {p.recoveryStack[j]} 0 <= j && j < len(p.recoveryStack) ==> alloc(p.recoveryStack[j]))
+//@   | && (forall j int, k int :: {p.recoveryStack[j], p.vstack[k]} 0 <= j && j < len(p.recoveryStack) && 0 <= k && k < cap(p.vstack) ==> p.recoveryStack[j] != p.vstack[k])
+//@   | && (forall j int, l string :: {has(p.recoveryStack[j], l)} 0 <= j && j < len(p.recoveryStack) && has(p.recoveryStack[j], l) ==> IsNode(p.recoveryStack[j][l]))
 //@ pred Inv(p *parser) bool = Ctx(p) && SP(p.data, p.pt)
 //@ pred InRule(p *parser) bool = len(p.vstack) >= 1 && len(p.rstack) >= 1
 //@ #if dbg
@@ -402,7 +408,7 @@ package builder
 
 // pushRecovery puts exactly the listed labels in force, all bound to the recovery expression
 //@ func (p *parser) pushRecovery(labels []string, expr any)
-//@   requires [ctx] Ctx(p)
+//@   requires [ctx] Ctx(p) && IsNode(expr)
 //@   modifies p.recoveryStack, all map[string]any
 //@   ensures [len C14] len(p.recoveryStack) == old(len(p.recoveryStack)) + 1
 //@   ensures [lower C14] forall k int :: 0 <= k && k < old(len(p.recoveryStack)) ==> p.recoveryStack[k] == old(p.recoveryStack[k])
@@ -412,6 +418,7 @@ package builder
 //@   ensures [ctx] Ctx(p)
 //@   loop#1 invariant [dom C14] forall l string :: {has(m, l)} (has(m, l) == (exists k int :: 0 <= k && k < idx && labels[k] == l)) && (has(m, l) ==> m[l] == expr)
 //@   loop#1 invariant [frame] m != nil
+//@   loop#1 invariant [others C14] forall x map[string]any :: {mapdom(x)} x != m ==> mapdom(x) == old(mapdom(x)) && mapval(x) == old(mapval(x))
 //@   raw-capacity
 //@   safety C11
 //@   frame C18
@@ -422,5 +429,387 @@ package builder
 //@   ensures [len C14] len(p.recoveryStack) == old(len(p.recoveryStack)) - 1
 //@   ensures [lower C14] forall k int :: 0 <= k && k < len(p.recoveryStack) ==> p.recoveryStack[k] == old(p.recoveryStack[k])
 //@   ensures [ctx] Ctx(p)
+//@   safety C11
+//@   frame C18
+
+// ======================================================================================
+// Grammar-node well-formedness (what builder.writeExpr emits; assumed here, see builder contracts)
+// ======================================================================================
+
+//@ pred IsKind(e any, t string) bool = is(e, t)
+//@ spec func IsNode(e any) bool
+//@ axiom node-def: forall e any :: {IsNode(e)} IsNode(e) ==
+//@   | ((is(e, "*actionExpr") && as(e, "*actionExpr") != nil) || (is(e, "*andCodeExpr") && as(e, "*andCodeExpr") != nil)
+//@   | || (is(e, "*andExpr") && as(e, "*andExpr") != nil) || (is(e, "*anyMatcher") && as(e, "*anyMatcher") != nil)
+//@   | || (is(e, "*charClassMatcher") && as(e, "*charClassMatcher") != nil) || (is(e, "*choiceExpr") && as(e, "*choiceExpr") != nil)
+//@   | || (is(e, "*labeledExpr") && as(e, "*labeledExpr") != nil) || (is(e, "*litMatcher") && as(e, "*litMatcher") != nil)
+//@   | || (is(e, "*notCodeExpr") && as(e, "*notCodeExpr") != nil) || (is(e, "*notExpr") && as(e, "*notExpr") != nil)
+//@   | || (is(e, "*oneOrMoreExpr") && as(e, "*oneOrMoreExpr") != nil) || (is(e, "*recoveryExpr") && as(e, "*recoveryExpr") != nil)
+//@   | || (is(e, "*ruleRefExpr") && as(e, "*ruleRefExpr") != nil) || (is(e, "*seqExpr") && as(e, "*seqExpr") != nil)
+//@   | || StateNode(e)
+//@   | || (is(e, "*throwExpr") && as(e, "*throwExpr") != nil) || (is(e, "*zeroOrMoreExpr") && as(e, "*zeroOrMoreExpr") != nil)
+//@   | || (is(e, "*zeroOrOneExpr") && as(e, "*zeroOrOneExpr") != nil))
+//@ #if state
+//@ pred StateNode(e any) bool = is(e, "*stateCodeExpr") && as(e, "*stateCodeExpr") != nil
+//@ #else
+//@ pred StateNode(e any) bool = false
+//@ #endif
+// children of nodes are nodes; code-block fields are set; class ranges come in pairs
+//@ axiom wf-action: forall a *actionExpr :: {a.expr} a != nil ==> IsNode(a.expr) && a.run != nil
+//@ axiom wf-and: forall a *andExpr :: {a.expr} a != nil ==> IsNode(a.expr)
+//@ axiom wf-not: forall a *notExpr :: {a.expr} a != nil ==> IsNode(a.expr)
+//@ axiom wf-opt: forall a *zeroOrOneExpr :: {a.expr} a != nil ==> IsNode(a.expr)
+//@ axiom wf-star: forall a *zeroOrMoreExpr :: {a.expr} a != nil ==> IsNode(a.expr)
+//@ axiom wf-plus: forall a *oneOrMoreExpr :: {a.expr} a != nil ==> IsNode(a.expr)
+//@ axiom wf-label: forall a *labeledExpr :: {a.expr} a != nil ==> IsNode(a.expr)
+//@ axiom wf-recovery: forall a *recoveryExpr :: {a.expr} a != nil ==> IsNode(a.expr)
+//@ axiom wf-recovery2: forall a *recoveryExpr :: {a.recoverExpr} a != nil ==> IsNode(a.recoverExpr)
+//@ axiom wf-seq: forall s *seqExpr, k int :: {s.exprs[k]} s != nil && 0 <= k && k < len(s.exprs) ==> IsNode(s.exprs[k])
+//@ axiom wf-choice: forall c *choiceExpr, k int :: {c.alternatives[k]} c != nil && 0 <= k && k < len(c.alternatives) ==> IsNode(c.alternatives[k])
+//@ axiom wf-andcode: forall a *andCodeExpr :: {a.run} a != nil ==> a.run != nil
+//@ axiom wf-notcode: forall a *notCodeExpr :: {a.run} a != nil ==> a.run != nil
+//@ #if state
+//@ axiom wf-statecode: forall a *stateCodeExpr :: {a.run} a != nil ==> a.run != nil
+//@ #endif
+//@ axiom wf-class: forall c *charClassMatcher :: {c.ranges} c != nil ==> len(c.ranges) % 2 == 0
+//@ axiom wf-rule: forall r *rule :: {r.expr} r != nil ==> IsNode(r.expr)
+//@ #if bl
+//@ axiom wf-bltable: forall c *charClassMatcher, r rune :: {c.basicLatinChars[r]} c != nil && 0 <= r && r < 128 ==> c.basicLatinChars[r] == ClassHit(c, foldC(c, r))
+//@ #endif
+
+// ======================================================================================
+// User code blocks: declared call contracts (assumption about user code: a block touches only
+// the user-visible stores and its own data; it may panic)
+// ======================================================================================
+
+//@ extern actionExpr.run(p *parser) (v any, err error)
+//@   modifies all storeDict
+//@   panics [user] true
+//@ extern andCodeExpr.run(p *parser) (b bool, err error)
+//@   modifies all storeDict
+//@   panics [user] true
+//@ extern notCodeExpr.run(p *parser) (b bool, err error)
+//@   modifies all storeDict
+//@   panics [user] true
+//@ #if state
+//@ extern stateCodeExpr.run(p *parser) (err error)
+//@   modifies all storeDict
+//@   panics [user] true
+//@ #endif
+
+// ======================================================================================
+// The recursive interpreter (C01, C02, C05, C11, C12, C14, C16)
+// ======================================================================================
+
+// Shape: a failing expression consumes nothing and yields nil; the position never moves backwards.
+//@ pred Shape(p *parser, val any, ok bool) bool = (!ok ==> p.pt == old(p.pt) && val == nil) && p.pt.offset >= old(p.pt.offset)
+// Stacks: the three stacks are as they were (balanced push/pop; no frame replaced).
+// Budget: the expression counter only grows and stays within the budget (C16).
+//@ pred Budget(p *parser) bool = p.ExprCnt >= old(p.ExprCnt) && p.ExprCnt <= p.maxExprCnt
+//@ pred Stacks(p *parser) bool = SameMaps(p.vstack, old(p.vstack)) && SameRules(p.rstack, old(p.rstack)) && SameMaps(p.recoveryStack, old(p.recoveryStack))
+
+//@ func (p *parser) parseExpr(expr any) (val any, ok bool)
+//@   requires [inv] Inv(p) && InRule(p) && IsNode(expr)
+//@   modifies PS
+//@   panics [budget-value C16] old(p.ExprCnt) + 1 > p.maxExprCnt ==> panicval == errMaxExprCnt
+//@   ensures [inv C01] Inv(p) && InRule(p)
+//@   ensures [peg C01] D(expr, p.data, old(p.pt.offset), ok, p.pt.offset, val)
+//@   ensures [shape C01] Shape(p, val, ok)
+//@   ensures [stacks C02 C14] Stacks(p)
+//@   ensures [invert C12] p.maxFailInvertExpected == old(p.maxFailInvertExpected)
+//@   ensures [charges C16] p.ExprCnt > old(p.ExprCnt)
+//@   ensures [budget C16] p.ExprCnt <= p.maxExprCnt
+//@   safety C11 C13
+//@   frame C18
+
+//@ func (p *parser) parseExprWrap(expr any) (val any, ok bool)
+//@   requires [inv] Inv(p) && InRule(p) && IsNode(expr)
+//@   modifies PS
+//@   panics [any] true
+//@   ensures [inv C01] Inv(p) && InRule(p)
+//@   ensures [peg C01 C06] D(expr, p.data, old(p.pt.offset), ok, p.pt.offset, val)
+//@   ensures [shape C01 C06] Shape(p, val, ok)
+//@   ensures [stacks C02 C14] Stacks(p)
+//@   ensures [invert C12] p.maxFailInvertExpected == old(p.maxFailInvertExpected)
+//@   ensures [charges C16] p.ExprCnt > old(p.ExprCnt)
+//@   ensures [budget C16] p.ExprCnt <= p.maxExprCnt
+//@   safety C11
+//@   frame C18
+
+//@ func (p *parser) parseRule(rule *rule) (val any, ok bool)
+//@   requires [inv] Inv(p) && rule != nil
+//@   modifies PS
+//@   panics [any] true
+//@   ensures [inv C01] Inv(p)
+//@   ensures [peg-rule C01] DR(rule, p.data, old(p.pt.offset), ok, p.pt.offset, val)
+//@   ensures [shape C01] Shape(p, val, ok)
+//@   ensures [stacks C02 C11 C14] Stacks(p)
+//@   ensures [invert C12] p.maxFailInvertExpected == old(p.maxFailInvertExpected)
+//@   ensures [charges C16] p.ExprCnt > old(p.ExprCnt) && p.ExprCnt <= p.maxExprCnt
+//@   safety C11
+//@   frame C18
+
+//@ func (p *parser) parseRuleWrap(rule *rule) (val any, ok bool)
+//@   requires [inv] Inv(p) && rule != nil
+//@   modifies PS
+//@   panics [any] true
+//@   ensures [inv C01] Inv(p)
+//@   ensures [peg-rule C01 C06] DR(rule, p.data, old(p.pt.offset), ok, p.pt.offset, val)
+//@   ensures [shape C01] Shape(p, val, ok)
+//@   ensures [stacks C02 C11 C14] Stacks(p)
+//@   ensures [invert C12] p.maxFailInvertExpected == old(p.maxFailInvertExpected)
+//@   ensures [budget C16] p.ExprCnt >= old(p.ExprCnt) && (old(p.ExprCnt) <= p.maxExprCnt ==> p.ExprCnt <= p.maxExprCnt)
+//@   safety C11
+//@   frame C18
+
+//@ func (p *parser) parseRuleRefExpr(ref *ruleRefExpr) (val any, ok bool)
+//@   requires [inv] Inv(p) && InRule(p) && ref != nil
+//@   requires [budget-in C16] p.ExprCnt <= p.maxExprCnt
+//@   modifies PS
+//@   panics [any] true
+//@   ensures [inv C01] Inv(p) && InRule(p)
+//@   ensures [peg-ref C01] D(ref, p.data, old(p.pt.offset), ok, p.pt.offset, val)
+//@   ensures [shape C01] Shape(p, val, ok)
+//@   ensures [stacks C02 C14] Stacks(p)
+//@   ensures [invert C12] p.maxFailInvertExpected == old(p.maxFailInvertExpected)
+//@   ensures [budget C16] Budget(p)
+//@   safety C11
+//@   frame C18
+
+//@ func (p *parser) parseSeqExpr(seq *seqExpr) (val any, ok bool)
+//@   requires [inv] Inv(p) && InRule(p) && seq != nil
+//@   requires [budget-in C16] p.ExprCnt <= p.maxExprCnt
+//@   modifies PS
+//@   panics [any] true
+//@   ensures [inv C01] Inv(p) && InRule(p)
+//@   ensures [peg-seq C01] D(seq, p.data, old(p.pt.offset), ok, p.pt.offset, val)
+//@   ensures [shape C01] Shape(p, val, ok)
+//@   ensures [stacks C02 C14] Stacks(p)
+//@   ensures [invert C12] p.maxFailInvertExpected == old(p.maxFailInvertExpected)
+//@   ensures [budget C16] Budget(p)
+//@   loop#1 invariant [inv] Inv(p) && InRule(p) && pt == old(p.pt)
+//@   loop#1 invariant [prefix C01] SeqPre(seq, p.data, idx, old(p.pt.offset), p.pt.offset, arr(vals)) && len(vals) == idx && off(vals) == 0
+//@   loop#1 invariant [mono] p.pt.offset >= old(p.pt.offset) && Budget(p)
+//@   loop#1 invariant [stacks C02 C14] Stacks(p) && p.maxFailInvertExpected == old(p.maxFailInvertExpected)
+//@   safety C11
+//@   frame C18
+
+//@ func (p *parser) parseChoiceExpr(ch *choiceExpr) (val any, ok bool)
+//@   requires [inv] Inv(p) && InRule(p) && ch != nil
+//@   requires [budget-in C16] p.ExprCnt <= p.maxExprCnt
+//@   modifies PS
+//@   panics [any] true
+//@   ensures [inv C01] Inv(p) && InRule(p)
+//@   ensures [peg-choice C01] D(ch, p.data, old(p.pt.offset), ok, p.pt.offset, val)
+//@   ensures [shape C01] Shape(p, val, ok)
+//@   ensures [stacks C02 C14] Stacks(p)
+//@   ensures [invert C12] p.maxFailInvertExpected == old(p.maxFailInvertExpected)
+//@   ensures [budget C16] Budget(p)
+//@   loop#1 invariant [inv] Inv(p) && InRule(p) && p.pt == old(p.pt)
+//@   loop#1 invariant [prefix C01] ChoicePre(ch, p.data, idx, old(p.pt.offset))
+//@   loop#1 invariant [mono] Budget(p)
+//@   loop#1 invariant [stacks C02 C14] Stacks(p) && p.maxFailInvertExpected == old(p.maxFailInvertExpected)
+//@   safety C11
+//@   frame C18
+
+//@ func (p *parser) parseAndExpr(and *andExpr) (val any, ok bool)
+//@   requires [inv] Inv(p) && InRule(p) && and != nil
+//@   requires [budget-in C16] p.ExprCnt <= p.maxExprCnt
+//@   modifies PS
+//@   panics [any] true
+//@   ensures [inv C01] Inv(p) && InRule(p)
+//@   ensures [peg-and C01] D(and, p.data, old(p.pt.offset), ok, p.pt.offset, val)
+//@   ensures [zero-width C01] p.pt == old(p.pt) && val == nil
+//@   ensures [stacks C02 C14] Stacks(p)
+//@   ensures [invert C12] p.maxFailInvertExpected == old(p.maxFailInvertExpected)
+//@   ensures [budget C16] Budget(p)
+//@   safety C11
+//@   frame C18
+
+//@ func (p *parser) parseNotExpr(not *notExpr) (val any, ok bool)
+//@   requires [inv] Inv(p) && InRule(p) && not != nil
+//@   requires [budget-in C16] p.ExprCnt <= p.maxExprCnt
+//@   modifies PS
+//@   panics [any] true
+//@   ensures [inv C01] Inv(p) && InRule(p)
+//@   ensures [peg-not C01] D(not, p.data, old(p.pt.offset), ok, p.pt.offset, val)
+//@   ensures [zero-width C01] p.pt == old(p.pt) && val == nil
+//@   ensures [stacks C02 C14] Stacks(p)
+//@   ensures [invert C12] p.maxFailInvertExpected == old(p.maxFailInvertExpected)
+//@   ensures [budget C16] Budget(p)
+//@   before parser.parseExprWrap assert [inverted C12] p.maxFailInvertExpected == !old(p.maxFailInvertExpected)
+//@   safety C11
+//@   frame C18
+
+//@ func (p *parser) parseZeroOrOneExpr(expr *zeroOrOneExpr) (val any, ok bool)
+//@   requires [inv] Inv(p) && InRule(p) && expr != nil
+//@   requires [budget-in C16] p.ExprCnt <= p.maxExprCnt
+//@   modifies PS
+//@   panics [any] true
+//@   ensures [inv C01] Inv(p) && InRule(p)
+//@   ensures [peg-opt C01] D(expr, p.data, old(p.pt.offset), ok, p.pt.offset, val)
+//@   ensures [always C01] ok && p.pt.offset >= old(p.pt.offset)
+//@   ensures [stacks C02 C14] Stacks(p)
+//@   ensures [invert C12] p.maxFailInvertExpected == old(p.maxFailInvertExpected)
+//@   ensures [budget C16] Budget(p)
+//@   safety C11
+//@   frame C18
+
+//@ func (p *parser) parseZeroOrMoreExpr(expr *zeroOrMoreExpr) (val any, ok bool)
+//@   requires [inv] Inv(p) && InRule(p) && expr != nil
+//@   requires [budget-in C16] p.ExprCnt <= p.maxExprCnt
+//@   modifies PS
+//@   panics [any] true
+//@   ensures [inv C01] Inv(p) && InRule(p)
+//@   ensures [peg-star C01] D(expr, p.data, old(p.pt.offset), ok, p.pt.offset, val)
+//@   ensures [always C01] ok && p.pt.offset >= old(p.pt.offset)
+//@   ensures [stacks C02 C14] Stacks(p)
+//@   ensures [invert C12] p.maxFailInvertExpected == old(p.maxFailInvertExpected)
+//@   ensures [budget C16] Budget(p)
+//@   loop#1 invariant [inv] Inv(p) && InRule(p)
+//@   loop#1 invariant [iter C01] exists k int :: k >= 0 && RepPre(expr.expr, p.data, k, old(p.pt.offset), p.pt.offset, arr(vals)) && len(vals) == k && off(vals) == 0
+//@   loop#1 invariant [mono] p.pt.offset >= old(p.pt.offset) && Budget(p)
+//@   loop#1 invariant [stacks C02 C14] Stacks(p) && p.maxFailInvertExpected == old(p.maxFailInvertExpected)
+//@   loop#1 decreases [C16] p.maxExprCnt - p.ExprCnt
+//@   safety C11
+//@   frame C18
+
+//@ func (p *parser) parseOneOrMoreExpr(expr *oneOrMoreExpr) (val any, ok bool)
+//@   requires [inv] Inv(p) && InRule(p) && expr != nil
+//@   requires [budget-in C16] p.ExprCnt <= p.maxExprCnt
+//@   modifies PS
+//@   panics [any] true
+//@   ensures [inv C01] Inv(p) && InRule(p)
+//@   ensures [peg-plus C01] D(expr, p.data, old(p.pt.offset), ok, p.pt.offset, val)
+//@   ensures [shape C01] Shape(p, val, ok)
+//@   ensures [stacks C02 C14] Stacks(p)
+//@   ensures [invert C12] p.maxFailInvertExpected == old(p.maxFailInvertExpected)
+//@   ensures [budget C16] Budget(p)
+//@   loop#1 invariant [inv] Inv(p) && InRule(p)
+//@   loop#1 invariant [iter C01] exists k int :: k >= 0 && RepPre(expr.expr, p.data, k, old(p.pt.offset), p.pt.offset, arr(vals)) && len(vals) == k && off(vals) == 0
+//@   loop#1 invariant [first] len(vals) == 0 ==> p.pt == old(p.pt)
+//@   loop#1 invariant [mono] p.pt.offset >= old(p.pt.offset) && Budget(p)
+//@   loop#1 invariant [stacks C02 C14] Stacks(p) && p.maxFailInvertExpected == old(p.maxFailInvertExpected)
+//@   loop#1 decreases [C16] p.maxExprCnt - p.ExprCnt
+//@   safety C11
+//@   frame C18
+
+//@ func (p *parser) parseLabeledExpr(lab *labeledExpr) (val any, ok bool)
+//@   requires [inv] Inv(p) && InRule(p) && lab != nil
+//@   requires [budget-in C16] p.ExprCnt <= p.maxExprCnt
+//@   modifies PS
+//@   panics [any] true
+//@   ensures [inv C01] Inv(p) && InRule(p)
+//@   ensures [peg-label C01] D(lab, p.data, old(p.pt.offset), ok, p.pt.offset, val)
+//@   ensures [shape C01] Shape(p, val, ok)
+//@   ensures [stacks C02 C14] Stacks(p)
+//@   ensures [bind C02] ok && lab.label != "" ==> has(p.vstack[len(p.vstack)-1], lab.label) && p.vstack[len(p.vstack)-1][lab.label] == val
+//@   ensures [invert C12] p.maxFailInvertExpected == old(p.maxFailInvertExpected)
+//@   ensures [budget C16] Budget(p)
+//@   safety C11
+//@   frame C18
+
+//@ func (p *parser) parseActionExpr(act *actionExpr) (val any, ok bool)
+//@   requires [inv] Inv(p) && InRule(p) && act != nil
+//@   requires [budget-in C16] p.ExprCnt <= p.maxExprCnt
+//@   modifies PS
+//@   panics [any] true
+//@   ensures [inv C01] Inv(p) && InRule(p)
+//@   ensures [peg-action C01] D(act, p.data, old(p.pt.offset), ok, p.pt.offset, val)
+//@   ensures [shape C01] Shape(p, val, ok)
+//@   ensures [value C01 C02 local] ok ==> val == actVal
+//@   ensures [stacks C02 C14] Stacks(p)
+//@   ensures [invert C12] p.maxFailInvertExpected == old(p.maxFailInvertExpected)
+//@   ensures [budget C16] Budget(p)
+//@   ensures [err-recorded C11 local] ok && err != nil ==> len(*p.errs) >= 1 && IsPErr((*p.errs)[len(*p.errs)-1], err, old(p.pt.position))
+// the block runs only after a match and sees the matched bytes and the start position (C02)
+//@   before actionExpr.run assert [ctx C02] ok && p.cur.pos == old(p.pt.position) && p.cur.text == p.data[old(p.pt.offset):p.pt.offset]
+//@   safety C11
+//@   frame C18
+
+//@ func (p *parser) parseAndCodeExpr(and *andCodeExpr) (val any, res bool)
+//@   requires [inv] Inv(p) && InRule(p) && and != nil
+//@   requires [budget-in C16] p.ExprCnt <= p.maxExprCnt
+//@   modifies PS
+//@   panics [any] true
+//@   ensures [inv C01] Inv(p) && InRule(p)
+//@   ensures [peg-andcode C01] D(and, p.data, old(p.pt.offset), res, p.pt.offset, val)
+//@   ensures [zero-width C01 C02] p.pt == old(p.pt) && val == nil
+//@   ensures [decides C02 local] res == ok
+//@   ensures [stacks C02 C14] Stacks(p)
+//@   ensures [invert C12] p.maxFailInvertExpected == old(p.maxFailInvertExpected)
+//@   ensures [budget C16] Budget(p)
+//@   ensures [err-recorded C11 local] err != nil ==> len(*p.errs) >= 1 && IsPErr((*p.errs)[len(*p.errs)-1], err, p.pt.position)
+// predicate blocks see the current position and an empty text (C02)
+//@   before andCodeExpr.run assert [ctx C02] p.cur.pos == p.pt.position && len(p.cur.text) == 0
+//@   safety C11
+//@   frame C18
+
+//@ func (p *parser) parseNotCodeExpr(not *notCodeExpr) (val any, res bool)
+//@   requires [inv] Inv(p) && InRule(p) && not != nil
+//@   requires [budget-in C16] p.ExprCnt <= p.maxExprCnt
+//@   modifies PS
+//@   panics [any] true
+//@   ensures [inv C01] Inv(p) && InRule(p)
+//@   ensures [peg-notcode C01] D(not, p.data, old(p.pt.offset), res, p.pt.offset, val)
+//@   ensures [zero-width C01 C02] p.pt == old(p.pt) && val == nil
+//@   ensures [decides C02 local] res == !ok
+//@   ensures [stacks C02 C14] Stacks(p)
+//@   ensures [invert C12] p.maxFailInvertExpected == old(p.maxFailInvertExpected)
+//@   ensures [budget C16] Budget(p)
+//@   ensures [err-recorded C11 local] err != nil ==> len(*p.errs) >= 1 && IsPErr((*p.errs)[len(*p.errs)-1], err, p.pt.position)
+//@   before notCodeExpr.run assert [ctx C02] p.cur.pos == p.pt.position && len(p.cur.text) == 0
+//@   safety C11
+//@   frame C18
+
+//@ #if state
+//@ func (p *parser) parseStateCodeExpr(state *stateCodeExpr) (val any, ok bool)
+//@   requires [inv] Inv(p) && InRule(p) && state != nil
+//@   requires [budget-in C16] p.ExprCnt <= p.maxExprCnt
+//@   modifies PS
+//@   panics [any] true
+//@   ensures [inv C01] Inv(p) && InRule(p)
+//@   ensures [peg-statecode C01] D(state, p.data, old(p.pt.offset), ok, p.pt.offset, val)
+//@   ensures [zero-width C01 C02] p.pt == old(p.pt) && val == nil && ok
+//@   ensures [stacks C02 C14] Stacks(p)
+//@   ensures [invert C12] p.maxFailInvertExpected == old(p.maxFailInvertExpected)
+//@   ensures [budget C16] Budget(p)
+//@   ensures [err-recorded C11 local] err != nil ==> len(*p.errs) >= 1 && IsPErr((*p.errs)[len(*p.errs)-1], err, p.pt.position)
+//@   before stateCodeExpr.run assert [ctx C02] p.cur.pos == p.pt.position && len(p.cur.text) == 0
+//@   safety C11
+//@   frame C18
+//@ #endif
+
+//@ func (p *parser) parseRecoveryExpr(recover *recoveryExpr) (val any, ok bool)
+//@   requires [inv] Inv(p) && InRule(p) && recover != nil
+//@   requires [budget-in C16] p.ExprCnt <= p.maxExprCnt
+//@   modifies PS
+//@   panics [any] true
+//@   ensures [inv C01] Inv(p) && InRule(p)
+//@   ensures [peg-recovery C01] D(recover, p.data, old(p.pt.offset), ok, p.pt.offset, val)
+//@   ensures [shape C01] Shape(p, val, ok)
+//@   ensures [stacks C02 C14] Stacks(p)
+//@   ensures [invert C12] p.maxFailInvertExpected == old(p.maxFailInvertExpected)
+//@   ensures [budget C16] Budget(p)
+// the handlers are in force exactly while the guarded expression is evaluated (C14)
+//@   before parser.parseExprWrap assert [in-force C14] len(p.recoveryStack) == old(len(p.recoveryStack)) + 1
+//@   safety C11
+//@   frame C18
+
+//@ func (p *parser) parseThrowExpr(expr *throwExpr) (val any, ok bool)
+//@   requires [inv] Inv(p) && InRule(p) && expr != nil
+//@   requires [budget-in C16] p.ExprCnt <= p.maxExprCnt
+//@   modifies PS
+//@   panics [any] true
+//@   ensures [inv C01] Inv(p) && InRule(p)
+//@   ensures [peg-throw C01] D(expr, p.data, old(p.pt.offset), ok, p.pt.offset, val)
+//@   ensures [shape C01 C14] Shape(p, val, ok)
+//@   ensures [stacks C02 C14] Stacks(p)
+//@   ensures [invert C12] p.maxFailInvertExpected == old(p.maxFailInvertExpected)
+//@   ensures [budget C16] Budget(p)
+//@   loop#1 invariant [inv] Inv(p) && InRule(p) && p.pt == old(p.pt) && i < len(p.recoveryStack)
+//@   loop#1 invariant [mono] Budget(p)
+//@   loop#1 invariant [stacks C02 C14] Stacks(p) && p.maxFailInvertExpected == old(p.maxFailInvertExpected)
+//@   loop#1 decreases [C16] i + 1
 //@   safety C11
 //@   frame C18
